@@ -102,7 +102,8 @@ def atom(draw, cfg: Cfg, mode: str, version: int, fields: List[str]):
         op = draw(st.sampled_from(["==", "==", "!="]))
     elif field == "Fee":
         rd = draw(read_spec(cfg, field, version))
-        c = draw(int_const(FEE_CONSTS, version))
+        fee_consts = FEE_CONSTS if cfg.on("fee_constants_above_limit") else [c for c in FEE_CONSTS if c <= 272000]
+        c = draw(int_const(fee_consts, version))
         op = draw(st.sampled_from(CMP_OPS))
     elif field == "GroupSize":
         rd = ["read", {"kind": "global", "field": "GroupSize"}]
@@ -174,7 +175,7 @@ def stmts(draw, cfg: Cfg, mode: str, version: int, fields, subs: List[str], dept
             kinds += ["switch"]
         kinds += ["return", "approve", "err", "reject"] if depth > 0 else ["return"]
         if cfg.profile == "modelled" and version >= 3:
-            kinds += ["shuffle", "storecond"]
+            kinds += ["shuffle", "storecond", "joinflag", "joinflag"]
             if subs and version >= 4:
                 kinds += ["passcond"]
         kind = draw(st.sampled_from(kinds))
@@ -202,7 +203,7 @@ def stmts(draw, cfg: Cfg, mode: str, version: int, fields, subs: List[str], dept
             out.append(["while", draw(st.integers(1, 3)), body, draw(st.integers(0, 3)), draw(st.booleans())])
         elif kind == "switch":
             arms = [draw(stmts(cfg, mode, version, fields, subs, depth + 1, budget, in_sub)) for _ in range(draw(st.integers(1, 3)))]
-            out.append(["switch", arms])
+            out.append(["switch", arms, draw(st.sampled_from([0, 0, 1, 2]))])
         elif kind == "call":
             callee = draw(st.sampled_from(subs))
             out.append(["call", callee])
@@ -214,6 +215,9 @@ def stmts(draw, cfg: Cfg, mode: str, version: int, fields, subs: List[str], dept
             out.append(["storecond", draw(cond(cfg, mode, version, fields)), draw(st.integers(10, 13))])
         elif kind == "passcond":
             out.append(["passcond", draw(cond(cfg, mode, version, fields))])
+        elif kind == "joinflag":
+            out.append(["joinflag", draw(cond(cfg, mode, version, fields)), draw(atom(cfg, mode, version, fields)),
+                        draw(st.sampled_from(["&&", "&&", "||"])), draw(st.integers(0, 3)), draw(st.booleans())])
         elif kind == "retcheck":
             out.append(["retcheck", draw(cond(cfg, mode, version, fields))])
         elif kind == "return":
@@ -475,7 +479,11 @@ class Lower:
             end = self.lab()
             self.feats.append("switch")
             self.emit(I("txn", "FirstValid"))
-            self.emit(I("switch", *labs))
+            sw = list(labs)
+            if len(s) > 2 and s[2]:
+                sw.append(labs[(s[2] - 1) % len(labs)])  # the same label may be named twice
+                self.feats.append("switch_repeated_label")
+            self.emit(I("switch", *sw))
             self.emit(I("b", end))
             for lb, arm in zip(labs, arms):
                 self.emit(L(lb))
@@ -509,6 +517,40 @@ class Lower:
             self.emit(L(mid))
             self.emit(I("load", s[2]))
             self.emit(I("assert"))
+        elif k == "joinflag":
+            # a flag is left on the stack by two branches that join; it is combined with a comparison in the
+            # join block and the result is consumed positively or negatively
+            self.feats.append("joinflag")
+            flagc, cmpc, conn, consumer, flag_first = s[1], s[2], s[3], s[4], s[5]
+            a_, j_ = self.lab(), self.lab()
+            self.cond(flagc)
+            self.emit(I("bnz", a_))
+            self.emit(I("int", 0))
+            self.emit(I("b", j_))
+            self.emit(L(a_))
+            self.emit(I("int", 1))
+            self.emit(L(j_))
+            self.cond(cmpc)
+            if not flag_first:
+                self.emit(I("swap"))
+            self.emit(I(conn))
+            if consumer == 0:
+                self.emit(I("assert"))
+            elif consumer == 1:
+                self.emit(I("!"))
+                self.emit(I("assert"))
+            elif consumer == 2:
+                ok = self.lab()
+                self.emit(I("bz", ok))
+                self.emit(I("err"))
+                self.emit(L(ok))
+            else:
+                rej, ok = self.lab(), self.lab()
+                self.emit(I("bnz", rej))
+                self.emit(I("b", ok))
+                self.emit(L(rej))
+                self.emit(I("err"))
+                self.emit(L(ok))
         elif k == "passcond":
             self.feats.append("passcond")
             self.need_checker = True
@@ -546,8 +588,12 @@ def lower_program(ast: dict, cfg: Cfg) -> dict:
         for nm in order:
             tmp.stmts(subs[nm], nm)
         lw.need_checker = tmp.need_checker
-        if subs or lw.need_checker:
+        if subs or lw.need_checker or ast.get("end") == 2:
             lw.emit(I("b", "main_start"))
+            if ast.get("end") == 2:
+                lw.emit(L("approve_end"))
+                lw.emit(I("int", 1))
+                lw.ann("return", [], ["true"])
             emit_subs()
             lw.emit(L("main_start"))
             lw.feats.append("subs_before_main")
@@ -568,6 +614,15 @@ def lower_program(ast: dict, cfg: Cfg) -> dict:
 
 
 def _finish_main(lw: Lower, ast: dict):
+    if ast.get("end") == 2 and ast.get("end_cond") is not None:
+        # the deciding branch is the very last instruction of the program: when it is not taken execution
+        # falls off the end with an empty stack and is rejected
+        if terminal(ast["main"]):
+            return
+        lw.cond(ast["end_cond"])
+        lw.ann("bnz", ["approve_end"], ast["end_cond"])
+        lw.feats.append("trailing_branch")
+        return
     if not terminal(ast["main"]):
         end = ast.get("end", 0)
         if end == 1 and lw.cfg.on("fall_off_end"):
@@ -596,7 +651,7 @@ def _coalesce_labels(lw: Lower):
     ren = {}
     out = []
     for it in lw.items:
-        if it[0] == "L" and out and out[-1][0] == "L" and it[1] not in ("main_start", "checker") and not it[1].startswith("sub"):
+        if it[0] == "L" and out and out[-1][0] == "L" and it[1] not in ("main_start", "checker", "approve_end") and not it[1].startswith("sub"):
             ren[it[1]] = out[-1][1]
             continue
         out.append(it)
@@ -624,11 +679,20 @@ def _use_intcblock(lw: Lower, how: int):
     for it in lw.items:
         if it[0] == "I" and it[1] in ("int", "pushint"):
             k = consts.index(parse_int_tok(it[2][0]))
-            if k < 4 and how == 1:
+            if k < 4 and how in (1, 3):
                 it[1], it[2] = f"intc_{k}", []
             else:
                 it[1], it[2] = "intc", [str(k)]
-    lw.items.insert(0, I("intcblock", *consts))
+    pos = 0
+    if how == 3 and lw.version >= 3:
+        # intcblock outside the entry block (after the jump over the subroutine bodies): tealer cannot
+        # resolve the constants, every intc is an unknown integer for it; the AVM executes it all the same
+        for k, it in enumerate(lw.items):
+            if it[0] == "L" and it[1] == "main_start":
+                pos = k + 1
+                lw.feats.append("intcblock_not_in_entry_block")
+                break
+    lw.items.insert(pos, I("intcblock", *consts))
     lw.feats.append("intcblock")
 
 
@@ -677,9 +741,16 @@ def semantic_program(draw, profile: str = "modelled", disabled=(), focus: Option
     ast = {
         "version": version, "mode": m, "main": main, "subs": {n: subs[n] for n in sub_names},
         "subs_first": draw(st.booleans()), "end": draw(st.sampled_from([0, 0, 0, 1])),
-        "intcblock": draw(st.sampled_from([0, 0, 0, 1, 2])) if version >= 2 else 0,
+        "intcblock": draw(st.sampled_from([0, 0, 0, 0, 1, 2, 3])) if version >= 2 else 0,
         "coalesce": draw(st.booleans()) and cfg.on("shared_join_label"),
     }
+    if version >= 4 and draw(st.integers(0, 7)) == 0 and cfg.on("trailing_branch"):
+        ast["end"] = 2
+        ast["subs_first"] = True
+        ast["end_cond"] = draw(cond(cfg, m, version, fields))
+    if (cfg.profile == "direct" or not cfg.on("intcblock_not_in_entry_block")) and ast["intcblock"] == 3:
+        # exactness is only claimed where the tool can know the constants (one intcblock, entry block)
+        ast["intcblock"] = 1
     prog = lower_program(ast, cfg)
     if chain:
         prog["features"] = sorted(set(prog["features"]) | {"deep_call_chain"})
@@ -688,7 +759,69 @@ def semantic_program(draw, profile: str = "modelled", disabled=(), focus: Option
         prog["cfg_off"] = sorted(cfg.off)
         prog["profile"] = profile
     finalize_mode(prog)
+    from hypothesis import assume
+
+    assume(path_estimate(prog) <= PATH_LIMIT)
     return prog
+
+
+PATH_LIMIT = 1500
+
+
+def path_estimate(prog: dict) -> int:
+    """number of entry->exit paths of the global graph with back edges removed (tealer's detectors
+    enumerate paths explicitly, so this bounds their work; generated programs are kept below PATH_LIMIT)"""
+    from vf.rcfg import RCFG
+
+    g = RCFG({"version": prog["version"], "items": prog["items"]})
+    first = {g.seq[b[0]].line: k for k, b in enumerate(g.blocks)}
+    memo = {}
+    sub_memo = {}
+    active = set()
+
+    def sub_counts(name):
+        if name in sub_memo:
+            return sub_memo[name]
+        if name in active:
+            return (1, 0)
+        active.add(name)
+        res = block_counts(g.block_of[g.sub_entry[name]])
+        active.discard(name)
+        sub_memo[name] = res
+        return res
+
+    def block_counts(k):
+        if k in memo:
+            return memo[k]
+        memo[k] = (0, 0)  # cuts cycles
+        blk = g.blocks[k]
+        last = g.seq[blk[-1]]
+        succs = [first[l] for l in g.succ_lines(last.line) if l in first and first[l] > k]
+        if last.op == "retsub":
+            res = (1, 0)
+        elif last.op in ("return", "err"):
+            res = (0, 1)
+        elif last.op == "callsub":
+            rs, as_ = sub_counts(last.imm[0])
+            if succs:
+                rp = block_counts(succs[0])
+                res = (rs * rp[0], as_ + rs * rp[1])
+            else:
+                res = (0, as_ + rs)
+        elif not succs:
+            res = (0, 1)
+        else:
+            r = a = 0
+            for s_ in succs:
+                x = block_counts(s_)
+                r += x[0]
+                a += x[1]
+            res = (min(r, 10**9), min(a, 10**9))
+        memo[k] = res
+        return res
+
+    r, a = block_counts(0)
+    return r + a
 
 
 def finalize_mode(prog: dict) -> dict:
